@@ -27,6 +27,10 @@ class PostError(Exception):
     pass
 
 
+class ChainedRuntimeError(RuntimeError):
+    pass
+
+
 BLOCK = {"Exception": Exception, "BaseException": BaseException, "StopIteration": StopIteration,
          "StopAsyncIteration": StopAsyncIteration, "RuntimeError": RuntimeError, "GeneratorExit": GeneratorExit,
          "KeyboardInterrupt": KeyboardInterrupt}
@@ -119,6 +123,11 @@ def make_genfunc(prog, made, st):
                 yield VALUE
             except BaseException:  # noqa: BLE001
                 raise mk(StopAsyncIteration)
+        elif h == "raisertfrom":
+            try:
+                yield VALUE
+            except BaseException as exc:  # noqa: BLE001
+                raise mk(ChainedRuntimeError) from exc
         if post == "yield":
             yield VALUE
         elif post == "raise":
